@@ -396,11 +396,10 @@ func ReplayManifestFile(fp *os.File, extMagic uint16, opt Options) (Manifest, in
 			return Manifest{}, 0, err
 		}
 		length := y.BytesToU32(lenCrcBuf[0:4])
-		// Sanity check to ensure we don't over-allocate memory.
-		if length > uint32(stat.Size()) {
-			return Manifest{}, 0, fmt.Errorf(
-				"Buffer length: %d greater than file size: %d. Manifest file might be corrupted",
-				length, stat.Size())
+		// A change set that extends past the end of the file was only partially written: stop
+		// here, as for any other short read. This also ensures we don't over-allocate memory.
+		if int64(length) > stat.Size()-r.count {
+			break
 		}
 		var buf = make([]byte, length)
 		if _, err := io.ReadFull(&r, buf); err != nil {
